@@ -80,3 +80,9 @@ def _f16(prop, case, violation):
 def _f19(prop, case, violation):
     # COO-ARG exception pair whose angle partner comes from a bond list (keep-protons round trips)
     return violation.get("sig") == "coo-arg-bond-order"
+
+
+@predicate("F21")
+def _f21(prop, case, violation):
+    # every differing group is a ligand group of a hetero residue whose set of recognised groups differs between frames
+    return violation.get("sig") == "ligand-typing-frame"
